@@ -12,13 +12,13 @@ CHECKS = {
  "C11": dict(tech="TLC model checking of Lsp.tla (CacheCoherent, PublishExactlyOnce); all notification histories enumerated by TLC and replayed into fresh `ironplcc lsp --stdio` processes against a fresh-server diagnostics table; CLI equality per document state; random long histories validated by LspTrace.tla",
              text="Exhaustive within bounds: every didOpen/didChange history up to length 3 (quick) / 4 (thorough) over 2 URIs x 5 texts is executed on the real server and compared frame by frame with the publishes the specification requires (document, version, content = function of the current document state as measured on fresh servers); the same contents are checked with `ironplcc check`; random histories up to length 40 are validated as behaviours of the specification by TLC. Workspace start-up (Boot action: every content of the workspace folder x histories up to length 2) and the positions clause (every single-fault unit of Unit.tla in random layouts: server and check report the same code, line, column).",
              ref="DESIGN.md 3.6, 5/C11"),
- "C12": dict(tech="TLC model checking of Lsp.tla safety + liveness (EventuallyAnswered under WF; message kinds incl. didClose and requests / notifications whose params do not fit their method); all message sequences up to length 3 replayed into the real server; random interleavings up to length 60 validated by LspTrace.tla",
+ "C12": dict(tech="TLC model checking of Lsp.tla safety + liveness (EventuallyAnswered under WF; message kinds incl. didClose and requests / notifications whose params do not fit their method); all message sequences up to length 3 replayed into the real server; random interleavings up to length 60 validated by LspTrace.tla; TLC enumeration of TextSync.tla (documents over 1- to 4-byte characters x ranges in UTF-16 positions x inserted texts) replayed as didChange in the synchronisation kind the server advertises",
              text="Exhaustive within bounds over the message alphabet of the property (didOpen, didChange with 0/1/2 changes, semantic-token and unknown requests, unknown notifications, client responses, unopened and non-file URIs), each sequence closed by shutdown and exit: replies, their ids, their order and the exit status must be exactly the specification's reply queue.",
              ref="DESIGN.md 3.6, 5/C12"),
  "C15": dict(tech="TLC model checking of the semantic-token codec in Lexer.tla; every class-string document replayed through `ironplcc lsp --stdio` inside edit histories and decoded against the specification's highlighted lexemes and class table",
              text="Exhaustive within bounds at the lexical level: for every class string of the Lexer.tla configurations the server's response is decoded under the relative encoding and must be strictly increasing and equal (line, column, length, legend class) to the highlighted lexemes computed by the specification; invalid text must give a null result.",
              ref="DESIGN.md 3.1, 5/C15"),
- "C13": dict(tech="TLC model checking of Cli.tla (ExitOkDiagAgree, EchoTokenizeExit, DependsOnlyOnDenotation); every enumerated invocation run as a real ironplcc process and compared; relational comparison of invocations with equal denotation; random argument lists of 4-8 paths validated by CliTrace.tla (implementation -> specification)",
+ "C13": dict(tech="TLC model checking of Cli.tla (ExitOkDiagAgree, EchoTokenizeExit, DependsOnlyOnDenotation); every enumerated invocation run as a real ironplcc process and compared; relational comparison of invocations with equal denotation; random argument lists of 4-8 paths and random verbosity validated by CliTrace.tla (implementation -> specification); every invocation up to 2 arguments with -v / -vvvv (MC_Cli_v)",
              text="Exhaustive within bounds: every argument sequence up to length 3 (quick) / 4 (thorough) over 9 files of all classes (two with names that differ in letter case only), 7 directories (incl. empty, with unreadable entry) and a missing path, for check / echo / tokenize, is executed; exit status, OK line and the set of (code, file) must equal the observation computed by the specification; directory vs file list, argument order and repetition are compared run against run.",
              ref="DESIGN.md 3.7, 5/C13"),
  "C14": dict(tech="TLC model checking of Cli.tla ReadDecode/EncodingTransparent over all encoding assignments; each replayed on a disk written in those encodings; exhaustive byte sweep in four lexical contexts; random binary files; every workspace content x message history of Lsp.tla (MC_Lsp_encws) replayed into the language server with the workspace stored in each of the five encodings",
